@@ -754,3 +754,51 @@ func init() {
 		},
 	}))
 }
+
+func le32(v uint32) string { return string([]byte{byte(v), byte(v >> 8), byte(v >> 16), byte(v >> 24)}) }
+func le64(v uint64) string {
+	b := make([]byte, 8)
+	for i := range b {
+		b[i] = byte(v >> (8 * i))
+	}
+	return string(b)
+}
+
+func init() {
+	RegisterProfile(fleetProfile("fleet-shadow", "C11", FleetRun{
+		Gen: func(t *Tape) FleetCfg {
+			c := swarmBase(t)
+			c.Native = false
+			c.N = 2 + t.Weighted("cfg-n12", []int{3, 1})
+			swarmFaults(t, &c)
+			c.CrashRate = 0 // steady state (the statement scopes out changes made while the syncer is down)
+			w := &c.Work
+			w.DBIs = []string{"d1"}
+			w.DBIKeys = map[string][]string{}
+			w.DBIFlags = map[string]uint{}
+			if t.Choose("cfg-int4", 2) == 1 {
+				w.DBIs = append(w.DBIs, "i4")
+				w.DBIFlags["i4"] = 0x08
+				w.DBIKeys["i4"] = []string{le32(0), le32(1), le32(2), le32(256), le32(1 << 31), le32(1<<32 - 1), le32(0x01000000)}
+			}
+			if t.Choose("cfg-int8", 3) == 2 {
+				w.DBIs = append(w.DBIs, "i8")
+				w.DBIFlags["i8"] = 0x08
+				w.DBIKeys["i8"] = []string{le64(0), le64(1), le64(1 << 32), le64(1 << 63), le64(1<<64 - 1), le64(0x0100000000000000)}
+			}
+			if t.Choose("cfg-late-dbi", 2) == 1 {
+				w.DBIs = append(w.DBIs, "zlate") // a DBI the application creates while the syncer runs
+			}
+			w.EmptyVal = pick(t, "cfg-empty12", 0, 0, 40, 120)
+			w.DelRate = pick(t, "cfg-del12", 250, 400)
+			return c
+		},
+		Mons: func(f *Fleet) []Monitor { return []Monitor{&MonC11{}} },
+		Post: func(f *Fleet, r *RunResult) {
+			m := f.Mon[0].(*MonC11)
+			r.Counts["ls_txns_checked"] = m.Checked
+			r.Counts["captures_checked"] = m.Captures
+			r.Nontrivial = m.Captures > 0 && f.Stats.Loads > 0
+		},
+	}))
+}
